@@ -293,6 +293,12 @@ def entry_points(pa):
         other = build_continuum(cont(("b", [(20, 21, "q")]), ("new", [(0, 1, "x")])))
         return [c.merge(other, in_place=False), c + other, other.merge(c, in_place=False)]
 
+    @reg("merge_with_empty", need2=False)
+    def _(c, d):
+        # an operand without annotators is the neutral element for the VALUE, not for object identity
+        return [c + pa.Continuum(), pa.Continuum() + c, c.merge(pa.Continuum(), in_place=False),
+                pa.Continuum().merge(c, in_place=False)]
+
     @reg("getitem_iter", need2=False)
     def _(c, d):
         for a in c.annotators:
@@ -351,6 +357,9 @@ def run_case(pa, E, iname, recipe, ename, mutation):
     dd = diff(d_before, snap_d(d))
     if dd:
         probs.append(f"{ename} modified the dissimilarity it was given: {'; '.join(dd)[:200]}")
+    for i, dv in enumerate(derived):
+        if dv is c:
+            probs.append(f"{ename} returned its input continuum itself as result #{i} instead of an independent continuum")
     if mutation is None or probs:
         return probs, len(derived)
     # level 2 (a): mutate each derived continuum -> input and sibling results unchanged
